@@ -94,6 +94,31 @@ def expected_edges(h):
     return want
 
 
+def check_dangling(case) -> list[Fail]:
+    """A raw call refused with an error (a link to / a child of a node that is not in the HUGR) must not show in a
+    document: serialization afterwards either refuses too or emits an index-sane, schema-valid document."""
+    from hugr.hugr.node_port import InPort, Node, OutPort
+
+    h, _ = c02.build({"root": case["root"], "mut": case["mut"]})
+    live = [n for n in h]
+    ghost = Node(len(h._nodes) + 5 + case["k"])
+    try:
+        if case["what"] == "link-from":
+            h.add_link(OutPort(ghost, 0), InPort(live[case["k"] % len(live)], 0))
+        elif case["what"] == "link-to":
+            h.add_link(OutPort(live[case["k"] % len(live)], 0), InPort(ghost, 0))
+        else:
+            h.add_node(store.mk_pool_op("noop"), ghost)
+        return []  # accepted: not this check's business
+    except Exception:  # noqa: BLE001 - refused
+        pass
+    try:
+        doc = json.loads(h.to_json())
+    except Exception:  # noqa: BLE001 - no document
+        return []
+    return [Fail(f.clause, "after-a-refused-call:" + f.locus, f.msg) for f in schema_fails(doc, "SerialHugr") + index_sanity(doc)]
+
+
 def partial_call(case):
     """A module in which a function is called (and loaded) with only the first `given` of its arguments
     wired: the static edge still ends right after all the value inputs of the call."""
@@ -120,7 +145,7 @@ def check_hugr(case) -> list[Fail]:
     if "op" in case:
         from vlib.props import c05
 
-        h = c05.order_probe(case["op"])  # one node of a generated operation between two order edges
+        h = c05.order_probe(case["op"], case.get("extra", 0))  # one node of a generated operation between two order edges
     elif "given" in case:
         h = partial_call(case)
     else:
@@ -205,6 +230,8 @@ SUBS = [
         nontrivial=nontrivial, classes=lambda c: sorted(set(c["prog"].get("classes", [])) & {"call", "polymorphic-call", "arity-changing-instantiation", "load-function", "function-called-twice"}), n_quick=80, n_thorough=600,
         sample_ok=lambda c: len(json.dumps(c)) < 3000),
     Sub("raw", check_hugr, strategy=c02.raw_strategy, nontrivial=nontrivial, classes=lambda c: sorted(facts(c) & {"delete-node", "static-edge", "order-edge-with-unconnected-port", "multi-link", "order-link"}), n_quick=200, n_thorough=1500),
+    Sub("refused-calls", check_dangling, strategy=lambda tier: st.fixed_dictionaries({"root": st.sampled_from(["dfg", "module"]), "mut": store.valid_mutations(6), "what": st.sampled_from(["link-from", "link-to", "child-of"]), "k": st.integers(0, 6)}),
+        nontrivial=lambda c: True, classes=lambda c: [c["what"]], n_quick=100, n_thorough=600),
     Sub("partial-calls", check_hugr, strategy=lambda tier: st.fixed_dictionaries({"ins": st.lists(__import__("vlib.asts", fromlist=["x"]).types(1, copy_only=True), min_size=1, max_size=4), "outs": st.lists(__import__("vlib.asts", fromlist=["x"]).types(1, copy_only=True), max_size=2), "given": st.integers(0, 4), "order": st.booleans()}),
         nontrivial=lambda c: c["given"] % (len(c["ins"]) + 1) < len(c["ins"]), classes=lambda c: ["all-arguments-wired" if c["given"] % (len(c["ins"]) + 1) == len(c["ins"]) else "some-arguments-unwired"], n_quick=100, n_thorough=800),
     Sub("order-ports-by-kind", check_hugr, strategy=lambda tier: __import__("vlib.props.c05", fromlist=["x"]).order_ports_strategy(tier), nontrivial=lambda c: c["op"]["k"] in ("Call", "LoadFunc", "LoadConst", "CallIndirect"),
